@@ -107,6 +107,13 @@ func newScryptWalletFileBytes(password string, privateKey []byte, n int, p int) 
 }
 
 func (w *walletFileScrypt) decrypt(password []byte) error {
+	// The parameters come from the file: reject the ones the KDF library would divide by, or slice with
+	if w.Crypto.KDFParams.DKLen != 32 {
+		return fmt.Errorf("invalid scrypt keystore: derived key length %d != 32", w.Crypto.KDFParams.DKLen)
+	}
+	if w.Crypto.KDFParams.R <= 0 || w.Crypto.KDFParams.P <= 0 {
+		return fmt.Errorf("invalid scrypt keystore: unsupported kdf parameters r=%d p=%d", w.Crypto.KDFParams.R, w.Crypto.KDFParams.P)
+	}
 	derivedKey, err := scrypt.Key(password, w.Crypto.KDFParams.Salt, w.Crypto.KDFParams.N, w.Crypto.KDFParams.R, w.Crypto.KDFParams.P, w.Crypto.KDFParams.DKLen)
 	if err != nil {
 		return fmt.Errorf("invalid scrypt keystore: %s", err)
